@@ -44,6 +44,9 @@ mod vx_bounded {
             for w in words(alphabet, max_len) {
                 let gs: Vec<Grapheme> = w.iter().map(|s| Grapheme::from(s, false, false, false)).collect();
                 let detected = coalesce_repetitions(create_ranges_of_repetitions(collect_repeated_substrings(&gs), &config));
+                // a second run builds a second HashMap (std gives every RandomState its own keys): the ranges must not depend on the hash order (C10)
+                let detected_again = coalesce_repetitions(create_ranges_of_repetitions(collect_repeated_substrings(&gs), &config));
+                if detected != detected_again { panic!("VX-BOUNDED-FAIL kind=symbols input={:?} min_rep={} min_len={}: the detected ranges depend on the hash order: {:?} vs {:?}", w, min_rep, min_len, detected, detected_again); }
                 // the whole conversion on the same input: what comes out must stand for the same symbols (flattened)
                 let converted = std::panic::catch_unwind(|| { let mut out = vec![]; convert_repetitions(&gs, &mut out, &config); out });
                 let out = match converted { Ok(out) => out, Err(_) => panic!("VX-BOUNDED-FAIL kind=symbols input={:?} min_rep={} min_len={}: convert_repetitions panicked", w, min_rep, min_len) };
